@@ -223,3 +223,25 @@ Proof.
   intros Hd. change obs0 with (obs_of tracker0 None None).
   apply clauses_hold; [apply Inv0 | intros u vt [] | exact Hd].
 Qed.
+
+(* the same on the in-domain prefix of ANY history: what the correspondence check evaluates *)
+Lemma in_domain_prefix ops : in_domain (dom_prefix ops) = true.
+Proof.
+  induction ops as [|o r IH]; [reflexivity|]. cbn [dom_prefix]. destruct (op_in_domain o) eqn:E; [|reflexivity].
+  cbn [in_domain forallb]. now rewrite E.
+Qed.
+
+Lemma run_from_prefix th ipv : forall ops t,
+  firstn (length (dom_prefix ops)) (run_from th ipv t ops) = run_from th ipv t (dom_prefix ops).
+Proof.
+  induction ops as [|o r IH]; intros t; [reflexivity|]. cbn [dom_prefix].
+  destruct (op_in_domain o); [|reflexivity]. cbn [length run_from].
+  destruct (step ipv th t o) as [[t' n] d]. cbn [firstn]. f_equal. apply IH.
+Qed.
+
+Theorem spec_holds_prefix (i : input) : spec_failures_prefix i (model_run i) = [].
+Proof.
+  destruct i as [[th tab] ops]. unfold spec_failures_prefix, model_run. destruct th; [|reflexivity]. cbv zeta.
+  rewrite run_from_prefix.
+  exact (spec_holds ([], tab, dom_prefix ops) (in_domain_prefix ops)).
+Qed.
